@@ -28,6 +28,8 @@ def subject(classes, cap_max=4):
         if cls == "SlottedConveyor":
             s["delay"] = [1, 0.5, 2, 0.7][d_ix % 4]
             s["acc"] = acc
+        if cls == "SlottedBeltStore":
+            s["delay"] = [1, 0.5, 2, 0.7][d_ix % 4]
         if cls == "ContinuousConveyor":
             geoms = [(4, 1, 1), (3, 1, 1), (2, 1, 2), (4, 2, 1), (3, 0.5, 2), (5, 1, 0.5), (2, 0.5, 1)]
             L, il, v = geoms[g_ix % len(geoms)]
